@@ -31,6 +31,7 @@ def _psd_safe_cholesky(A, out=None, jitter=None, max_tries=None):
         max_tries = settings.cholesky_max_tries.value()
     Aprime = A.clone()
     jitter_prev = 0
+    jitter_new = jitter_prev  # defined even if max_tries <= 0 (the loop body never runs)
     for i in range(max_tries):
         jitter_new = jitter * (10**i)
         # add jitter only where needed
